@@ -73,8 +73,35 @@ def mk(kind, n, pos):
     np = _G["np"]
     ua, uq = _G["ua"], _G["uq"]
     a, b = BASE[pos]
-    if kind in ("q", "a", "az", "c", "lq", "lqm"):
+    if kind in ("q", "a", "az", "c", "lq", "lqm", "tq", "tqa"):
         u = _G["units"][n]
+    # value classes (Ufunc.tla): tiny / denormal / NaN / inf are NOT zero; -0.0 IS zero
+    if kind == "ts":
+        return 1.0e-20
+    if kind == "ds":
+        return 5e-324
+    if kind == "nz":
+        return -0.0
+    if kind == "ns":
+        return float("nan")
+    if kind == "is":
+        return float("inf")
+    if kind == "ta":
+        return np.array([1.0e-17, 1.0e-20])
+    if kind == "tm":
+        return np.array([1.0e-17, 0.0])
+    if kind == "t32":
+        return np.array([1.0e-8, 1.0e-8], dtype=np.float32)
+    if kind == "tl":
+        return [1.0e-20, 0.0]
+    if kind == "nza":
+        return np.array([-0.0, 0.0])
+    if kind == "na":
+        return np.array([float("nan"), float("inf")])
+    if kind == "tq":
+        return uq(1.6e-19, u)
+    if kind == "tqa":
+        return ua(np.array([1.6e-19, 0.0]), u)
     if kind == "q":
         return uq(a, u)
     if kind == "a":
@@ -108,8 +135,9 @@ def snap(x):
     if isinstance(x, list):
         return ("list", tuple(snap(e) for e in x))
     if isinstance(x, np.ndarray):
-        return ("arr", x.shape, tuple(np.asarray(x, dtype=float).ravel().tolist()), str(getattr(x, "units", "")), type(x).__name__)
-    return ("num", x)
+        # repr of the numbers: NaN must compare equal to itself, -0.0 must differ from 0.0
+        return ("arr", x.shape, tuple(repr(v) for v in np.asarray(x, dtype=float).ravel().tolist()), str(getattr(x, "units", "")), type(x).__name__)
+    return ("num", repr(x))
 
 
 def uname(u):
@@ -165,7 +193,7 @@ BSHAPE = {"s": (), "v": (2,), "c": (2, 1), "m": (2, 2)}
 
 
 def _shape(kind):
-    return "s" if kind in ("q", "bs", "z") else "c" if kind == "c" else "v"
+    return "s" if kind in ("q", "bs", "z", "ts", "ds", "nz", "ns", "is", "tq") else "c" if kind == "c" else "v"
 
 
 def _bc(a, b):
